@@ -128,6 +128,14 @@ def parseProg (xs : List Sexp) : Option Prog :=
 
 def hasDrop (acts : List Action) : Bool := acts.any fun | .drop _ => true | _ => false
 
+/-- can this block be rendered with the legacy capability API? -/
+partial def legacyExpressible (is : List Instr) : Bool :=
+  is.all fun
+    | .await _ | .abortTask _ | .abortCmd _ | .host _ _ => false
+    | .stream _ _ _ _ body | .spawn _ body => legacyExpressible body
+    | .join a b | .select a b => legacyExpressible a && legacyExpressible b
+    | _ => true
+
 def modelOpt (line : String) : Option String := do
   match ← Sexp.parse line with
   | .list [.atom "direct", c, .list acts] => showDirect (← parseCmd c) false (← acts.mapM parseAction)
@@ -158,8 +166,12 @@ def modelOpt (line : String) : Option String := do
       let d ← showDirect c true acts
       let k ← showCore prog true coreActs
       if hasDrop acts then pure s!"D: {d} ## K: {k}" else
+      let l ← match c with
+        | .task is => if legacyExpressible is then (showCore [(1, .done, [is])] true coreActs).map (fun s => s!" ## L: {s}")
+                      else some ""
+        | _ => some ""
       let b ← showBridge prog true coreActs
-      pure s!"D: {d} ## K: {k} ## B: {b} ## J: {b}"
+      pure s!"D: {d} ## K: {k}{l} ## B: {b} ## J: {b}"
   | _ => none
 
 def isCase (line : String) : Bool :=
